@@ -22,6 +22,7 @@ fn run_prop(id: &str, tier: Tier) -> Option<Report> {
         "C05" => props::c04::run_c05(tier),
         "C06" => props::c06::run(tier),
         "C18" => props::c18::run(tier),
+        "C19" => props::c19::run(tier),
         _ => return None,
     })
 }
@@ -37,6 +38,7 @@ fn replay_case(case: &Value) -> Option<(bool, String)> {
         "c05" => props::c04::replay_c05(case),
         "c06" => props::c06::replay(case),
         "c18" => props::c18::replay(case),
+        "c19" => props::c19::replay(case),
         _ => return None,
     })
 }
